@@ -76,6 +76,7 @@ def make_file(r, layouts, expanded, enc, blocked, trailer=True, nrows=None):
         rows.insert(r.randrange(len(rows) + 1), 'HEADER RECORD' + ' ' * 30)
     if trailer:
         rows.append('TRAILER RECORD IP0000T1  %08d' % len(rows))
+    nindex = len(rows)
     data = []
     width = max([19] + [c['end'] for cols in layouts.values() for c in cols.values()]) + r.choice((0, 5, -3))
     for t in tids:
@@ -95,7 +96,14 @@ def make_file(r, layouts, expanded, enc, blocked, trailer=True, nrows=None):
     if data and r.random() < 0.3:
         data.insert(r.randrange(len(data)), 'X' * r.randrange(0, 15))      # short junk row
     rows += data
-    recs = [x.encode(enc) for x in rows]
+    if enc == 'ascii' and trailer:
+        # (without the index trailer the whole file is index phase, where whole rows are text: not generated)
+        # undefined bytes only in trailing filler, beyond every position that any table layout reads
+        far = max([30] + [c['end'] for cols in layouts.values() for c in cols.values()]) + 2
+        recs = [(x.ljust(far).encode(enc) + bytes([0xff, 0xfe, 0x80])) if i >= nindex and i % 2 else x.encode(enc)
+                for i, x in enumerate(rows)]
+    else:
+        recs = [x.encode(enc) for x in rows]
     _, fdata = drv.vbs_write_events(recs, blocked)
     return fdata
 
@@ -123,6 +131,8 @@ def _drive(args):
     out = []
     for tid in range(lo, hi):
         r = drv.rng(seed, 'c18', tid)
+        if tid % 4 == 1:
+            drv.hazard(r)
         layouts = PKG['mci_parameter_tables'] if tid % 3 == 0 else gen_layouts(r)
         if tid % 3 == 1:
             # a caller-supplied layout for a table id that the packaged configuration also knows (read earlier or later
@@ -131,6 +141,8 @@ def _drive(args):
             layouts = dict(layouts)
             layouts[('IP0040T1', 'IP0075T1', 'IP0006T1')[tid % 3 if False else (tid // 3) % 3]] = own
         enc = ('latin_1', 'cp500', 'cp037')[tid % 3 if tid % 2 else 0]
+        if tid % 8 == 6:
+            enc = 'ascii'
         blocked = bool(tid & 1)
         expanded = bool(tid & 2)
         trailer = tid % 17 != 5
